@@ -22,7 +22,8 @@ EXPLANATION = (
     "derived from a feature list; removals requested outside _remove_feature dispatch to the most "
     "derived override); R-pool-args (a computed multiprocessing chunk size is clamped to >= 1); R-select-nonempty "
     "(numpy.select never sees an empty condition list); R-apply-reduce (DataFrame.apply(unique) keeps one array per column: "
-    "result_type='reduce', otherwise pandas IndexingError on single / homogeneous columns: D29); R-index-kept (the transformed "
+    "result_type='reduce', otherwise pandas IndexingError on single / homogeneous columns: D29); R-chi2-rows (the zero-filled aggregate table must be restricted to its non-empty rows, or the call guarded, before "
+    "scipy's chi2_contingency sees it: known finding D30 at the raw association of _carve_feature); R-index-kept (the transformed "
     "frame keeps the caller's index: every later stage of fit aligns on it); R-forward-sentinels (inner discretizers get the "
     "outer str_nan / str_default: otherwise isfinite meets a foreign sentinel string); R-aggregate-fill "
     "(aggregates reindexed on the modalities state their fill value: no NaN / float in place of a list); "
@@ -37,7 +38,7 @@ EXPLANATION = (
     "ChainedDiscretizer, which C18 covers)."
 )
 NOT_DECIDED = "absence of every other internal error on all inputs; that the fitted partition covers every training value"
-FLOORS = {"R-stale-features": 3, "R-suffix": 6, "R-remove-complete": 12, "R-no-iter-mutation": 3, "R-boundaries-sorted-unique-inf": 4, "R-definite-assignment": 100, "R-nullable-dev": 6, "R-hooks-exhaustive": 2, "R-quantile-progress": 2, "R-append-absent": 9, "R-pool-args": 1, "R-select-nonempty": 2, "R-forward-sentinels": 8, "R-aggregate-fill": 2, "R-apply-reduce": 3, "R-index-kept": 1}
+FLOORS = {"R-stale-features": 3, "R-suffix": 6, "R-remove-complete": 12, "R-no-iter-mutation": 3, "R-boundaries-sorted-unique-inf": 4, "R-definite-assignment": 100, "R-nullable-dev": 6, "R-hooks-exhaustive": 2, "R-quantile-progress": 2, "R-append-absent": 9, "R-pool-args": 1, "R-select-nonempty": 2, "R-forward-sentinels": 8, "R-aggregate-fill": 2, "R-apply-reduce": 3, "R-index-kept": 1, "R-chi2-rows": 1}
 
 PER_FEATURE = {
     "features", "qualitative_features", "quantitative_features", "values_orders", "input_dtypes", "labels_per_values",
@@ -467,7 +468,51 @@ def rule_apply_reduce(ctx):
         raise AnalysisError("no DataFrame.apply(unique) found")
 
 
+def rule_chi2_rows(ctx):
+    """The aggregate table of a feature has one row per fitted modality, *zero-filled* for the
+    modalities without observations (R-aggregate-fill).  scipy's chi2_contingency raises ValueError
+    as soon as a row is empty (expected frequency 0), so a table handed to BinaryCarver's measure must
+    have been restricted to its non-empty rows, or the call guarded.  Decided at the one call that
+    receives the raw (ungrouped) table: `_carve_feature`."""
+    R = "R-chi2-rows"
+    repo = ctx.repo
+    fi = repo.find_function(f"{F_BC}::BaseCarver._carve_feature")
+    fm = repo.find_function(f"{F_BIN}::BinaryCarver._association_measure")
+    chi = [c for c in walk_no_nested(fm.node) if isinstance(c, ast.Call) and call_name(c) == "chi2_contingency"]
+    sites = [c for c in walk_no_nested(fi.node) if isinstance(c, ast.Call) and call_name(c) == "_association_measure"]
+    if not chi or len(sites) != 1:
+        raise AnalysisError("_carve_feature / BinaryCarver._association_measure: chi2 call or raw-association call site not found")
+    site = sites[0]
+    arg = site.args[0] if site.args else None
+    if arg is None:
+        raise AnalysisError("_carve_feature: the raw association receives no table")
+
+    def row_filter(node) -> bool:
+        # some test on the row totals: X.sum(axis=1) compared with 0, or a try/except around the call
+        for n in ast.walk(node):
+            if isinstance(n, ast.Compare) and any(isinstance(x, ast.Call) and call_name(x) == "sum" and any(k.arg == "axis" for k in x.keywords) for x in ast.walk(n)):
+                return True
+            if isinstance(n, ast.Try) and any(isinstance(x, ast.Call) and call_name(x) in ("chi2_contingency", "_association_measure") for b in n.body for x in ast.walk(b)):
+                return True
+        return False
+
+    protected = row_filter(fi.node) or row_filter(fm.node)
+    from ..exprs import single_defs
+
+    sd = single_defs(fi.node)
+    for _ in range(3):  # a local standing for the table (`xagg_without_nan = xagg.dropna()`) is looked through
+        if isinstance(arg, ast.Name) and arg.id in sd:
+            arg = sd[arg.id]
+    raw = unparse(arg).replace(".dropna()", "")
+    is_raw_table = raw in ("xagg", "xaggs[feature]")
+    if not protected and not is_raw_table:
+        raise AnalysisError(f"_carve_feature: the table given to the raw association (`{short(arg)}`) was not understood")
+    ctx.ob(R, construct(fi, "the raw association is computed on a table without empty modalities"), protected, loc(fi, site),
+           "" if protected else "the zero-filled aggregate goes to chi2_contingency unfiltered: a fitted modality without observations (e.g. the bucket of an all-missing quantitative column) makes BinaryCarver.fit raise scipy's ValueError instead of completing / AssertionError")
+
+
 def check(ctx):
+    rule_chi2_rows(ctx)
     rule_apply_reduce(ctx)
     from . import c07 as _c07
 
